@@ -329,6 +329,19 @@ fn sni_matrix(rep: &Arc<Reporter>, args: &Args) {
     });
 }
 
+pub fn scenarios(rep: &Arc<Reporter>, args: &Args) {
+    let dir = env::work_dir(&args.root, "c01");
+    let ctx = Arc::new(env::make_ctx(&dir, env::CtxOpts {
+        clients: USERS.iter().map(|(u, p)| (u.to_string(), p.to_string())).collect(),
+        registry_authenticator: true,
+        tweak: Some(Box::new(|b| b.icmp(trusttunnel::settings::IcmpSettings::builder().interface_name("lo").build().unwrap()))),
+        ..Default::default()
+    }));
+    table(rep, &ctx);
+    histories(rep, args, &ctx);
+    sni_matrix(rep, args);
+}
+
 pub fn run(args: &Args) -> i32 {
     let rep = Arc::new(Reporter::new(
         args,
@@ -342,15 +355,6 @@ pub fn run(args: &Args) -> i32 {
     rep.assume("whitespace around the value, scheme case, duplicate headers and unpadded base64 are EITHER (accepted or 407, never anything else)");
     rep.assume("a connection whose SNI credentials are rejected is dropped before any request is read: judged for zero egress only");
     rep.assume("HTTP/3 is not exercised in this check");
-    let dir = env::work_dir(&args.root, "c01");
-    let ctx = Arc::new(env::make_ctx(&dir, env::CtxOpts {
-        clients: USERS.iter().map(|(u, p)| (u.to_string(), p.to_string())).collect(),
-        registry_authenticator: true,
-        tweak: Some(Box::new(|b| b.icmp(trusttunnel::settings::IcmpSettings::builder().interface_name("lo").build().unwrap()))),
-        ..Default::default()
-    }));
-    table(&rep, &ctx);
-    histories(&rep, args, &ctx);
-    sni_matrix(&rep, args);
+    scenarios(&rep, args);
     rep.finish()
 }
